@@ -9,7 +9,7 @@ From FV Require Import Base.Bytes Gen.Generated Parser.ReqModel Parser.ReqTarget
    nothing is written after a failed write by this call, and a failure is reported as an error *)
 Theorem C12_write_all : forall fuel sel b w,
   match await_write_all fuel sel b w with
-  | Ok (Some k) w' => (k = EK_WriteZero \/ k = EK_Transport) /\ ~ no_fault (wscript w) /\
+  | Ok (Some k) w' => (k = EK_WriteZero \/ k = EK_Transport \/ k = EK_Aborted) /\ ~ no_fault (wscript w) /\
                       (exists b1 b2, b = b1 ++ b2 /\ b2 <> [] /\ io_rel w w' b1)
   | Ok None w' => io_rel w w' b
   | Halt ORet w' => sel = true /\ stopped w' = true /\ (exists b1 b2, b = b1 ++ b2 /\ b2 <> [] /\ io_rel w w' b1)
@@ -54,5 +54,11 @@ Proof. exact run_loop_total_lax. Qed.
 
 Example C12_example :
   exists w', await_write_all 10 false [1; 2; 3; 4] (mkW [] [2; W_ERR] [] [] 0 1 0 false true []) = Ok (Some EK_Transport) w'
+             /\ wlog w' = [1; 2].
+Proof. eexists. split; reflexivity. Qed.
+
+(* a transport write error whose io::ErrorKind is ConnectionAborted is reported with that kind *)
+Example C12_example_aborted_kind :
+  exists w', await_write_all 10 false [1; 2; 3; 4] (mkW [] [2; W_ERR_AB] [] [] 0 1 0 false true []) = Ok (Some EK_Aborted) w'
              /\ wlog w' = [1; 2].
 Proof. eexists. split; reflexivity. Qed.
